@@ -12,7 +12,13 @@ Monitor (three observations per loader call, all taken while the REAL loader run
    unique marker of a canary file planted outside (parent dir, sibling dirs, scratch root,
    the package directory outside `package_path`, `__init__.py`);
 3. names that are absolute, contain a `..` segment or resolve outside every root in an
-   independent `normpath` model must end in `TemplateNotFoundError`.
+   independent `normpath` model must end in `TemplateNotFoundError`; so must names for which
+   nothing exists at <root>/<name>[<ext>] under plain joining (`~user`, `$HOME`, globs ...):
+   any other exception class is a violation.
+
+The shard process runs with its cwd inside the sandbox (so search paths `.`, ``, `Path()`,
+`templates` ... are real roots) and with HOME pointing at a sandbox directory full of canaries
+(so any `~` expansion is visible to the audit hook and the content oracle).
 
 A name that stays inside a root but designates a directory (``, `.`, `sub/`) surfaces
 IsADirectoryError / ValueError today; that breaks neither clause and is only counted
@@ -26,6 +32,7 @@ import importlib
 import itertools
 import os
 import random
+import re
 import shutil
 import sys
 import sysconfig
@@ -40,18 +47,29 @@ ID = "C13"
 LEVEL = "exploration"
 RULE = (
     "case = (template name, loader configuration, access path, sync|async). Names come "
-    "from a path grammar: tokens '/', '.', '..', in-root segments (a, sub, ü), the canary "
-    "segment c (exists only OUTSIDE the roots), extensions (.liquid, .txt), backslash, and "
-    "four absolute-path tokens (canary file, scratch dir, a file inside the root, the root "
-    "itself) — every token string up to 4 tokens is enumerated (all of them against every "
-    "loader configuration from Python; up to 3 tokens, and all of them in the thorough "
-    "tier, also through every tag and async), seeded-random names up to 7 tokens over a "
-    "wider alphabet (percent-encoded and full-width dots, NUL, quotes, '~', sibling and "
-    "root directory names) and 'directed' names derived from the relative/absolute path "
-    "of every canary from every root (with './', 'sub/../', '//', trailing-separator, "
-    "backslash and encoded variants). Configurations: 10 loaders (FileSystemLoader, "
-    "CachingFileSystemLoader, PackageLoader over a generated package, ChoiceLoader, "
-    "CachingChoiceLoader; one and two search paths; with and without default extension). "
+    "from a path grammar and are enumerated in two families. CORE (15 tokens): '/', '.', "
+    "'..', in-root segments (a, sub, ü), the canary segment c (exists only OUTSIDE the "
+    "roots), '.liquid', '.txt', backslash, '~', and four absolute-path tokens (canary file, "
+    "scratch dir, a file inside the root, the root itself) — every distinct token string of "
+    "up to 4 tokens. HOME (17 tokens): '/', '.', '..', a, c, '.liquid', '~', '~root' "
+    "(existing account), '~c13-no-such-user', '$HOME', '${HOME}', '%HOME%', '~+', '~-', "
+    "'*', '?', '[a]' — every token string of up to 3 tokens (4 in thorough), i.e. each "
+    "spelling as a segment at every position. Every enumerated name meets every one of the "
+    "22 loader configurations at least through env.get_template; names of up to 2 tokens "
+    "(3 in thorough) meet every configuration through all 10 access paths; longer names "
+    "meet rotating subsets of the access paths (counters exh_scheme:* give the exact "
+    "fan-out). Plus seeded-random names of up to 7 tokens over a wider alphabet "
+    "(percent-encoded and full-width dots, NUL, quotes, glob and environment-variable "
+    "characters, sibling and root directory names) and 'directed' names derived from the "
+    "relative/absolute path of every canary from every root ('./', 'sub/../', '//', "
+    "trailing separator, backslash and encoded variants) and from every spelling of the "
+    "home directory for the canaries planted below $HOME. Configurations: "
+    "FileSystemLoader, CachingFileSystemLoader, PackageLoader over a generated package, "
+    "ChoiceLoader, CachingChoiceLoader; one and two search paths; with and without default "
+    "extension; search paths absolute and RELATIVE TO THE PROCESS CWD ('.', '', Path(), "
+    "'./', 'templates', './templates', 'templates/../templates', alone, in lists and under "
+    "the choice/caching loaders) with the shard's cwd set to a sandbox site directory and "
+    "HOME/USERPROFILE set to a sandbox directory outside every root that holds canaries. "
     "Access: env.get_template / get_template_async, and {% include 'N' %}, "
     "{% include var %}, {% render 'N' %}, {% extends 'N' %} rendered sync and async. "
     "distinct = hash of (symbolic name, configuration) — the access paths and sync/async "
@@ -63,12 +81,20 @@ ASSUMPTIONS = [
     "which files were read; os.stat (existence probes) raises no audit event and is not "
     "observed — the property is about contents returned, not about existence oracles",
     "opens whose real path lies in the Python installation, site-packages or the liquid2 "
-    "source tree are lazy imports and are ignored",
+    "source tree, and os.listdir of a sys.path entry (import path finder), are lazy "
+    "imports and are ignored",
     "POSIX path semantics: '/' is the only separator; symlinks inside a root are out of "
     "scope; zip-imported packages (non-filesystem Traversables) are not exercised",
     "template files are plain text so str(template) / rendered output equals file content",
     "scratch tree and fixture package are created under tempfile.mkdtemp() per shard and "
-    "removed in a finally block",
+    "removed in a finally block; the shard process chdir()s into the sandbox and overrides "
+    "HOME / USERPROFILE for its lifetime (restored in the same finally block)",
+    "a name for which nothing exists at <root>/<name>[<default ext>] under plain joining "
+    "(no expansion of '~', variables or globs) does not resolve inside a root, so the only "
+    "admissible failure is TemplateNotFoundError; names that designate an existing "
+    "directory or the root itself may still surface IsADirectoryError / ValueError "
+    "(diagnostic only)",
+    "'~root' is assumed to be an existing account and '~c13-no-such-user' a missing one",
 ]
 
 MARK = "C13CANARY"
@@ -142,6 +168,19 @@ class Scratch:
     S/pk/c13fixpkg/         __init__.py c c.liquid c.txt other/c.liquid   canary "pkg-dir"
     S/pk/c13fixpkg/templates/ (root)  a.liquid a.txt index.liquid sub/a.liquid ü/ü.liquid
     S/pk/c13fixpkg/more/      (root)  a.liquid b.liquid b.txt sub/onlyb.liquid
+    S/w/                    c c.liquid c.txt                  canary "cwd-parent"
+    S/w/sib/ S/w/sitex/     c.liquid a.liquid                 canary "cwd-sibling"
+    S/w/site/  (root, and the PROCESS CWD while the shard runs: search paths '.', '',
+                Path(), './' designate it)  a a.liquid a.txt index.liquid sub/{a,b}.liquid
+                            ü/ü.liquid '~' '~.liquid' '$HOME/a.liquid' '[a].liquid'
+                            '*.liquid' '?.liquid' '~+' '%HOME%.liquid'
+    S/w/site/templates/ (root, spelled 'templates', './templates', 'templates/../templates')
+                            a.liquid a.txt b.liquid sub/a.liquid '~' '~.liquid'
+    S/home/   ($HOME and %USERPROFILE% of the shard process; outside every root)
+                            c c.liquid c.txt a a.liquid sub/a.liquid secret secret.html
+                            secret.liquid                      canary "home"
+    Files literally named '~' / '~.liquid' are also planted in A and in the package roots
+    (they must stay servable).
     """
 
     def __init__(self, nonce: str):
@@ -149,8 +188,16 @@ class Scratch:
         self.S = os.path.realpath(tempfile.mkdtemp(prefix="vf-c13-"))
         self.canaries: list[tuple[str, str]] = []
         self.inside: dict[str, str] = {}  # abs path -> content
+        self._old_cwd = os.getcwd()
+        self._old_env = {k: os.environ.get(k) for k in ("HOME", "USERPROFILE")}
         try:
             self._build()
+            # relative search paths are resolved against the process cwd, and '~' / '~user'
+            # / $HOME against the environment: both point into the sandbox for the
+            # lifetime of this object (one shard process) and are restored by cleanup()
+            os.environ["HOME"] = self.HOME
+            os.environ["USERPROFILE"] = self.HOME
+            os.chdir(self.W)
         except BaseException:
             self.cleanup()
             raise
@@ -191,6 +238,29 @@ class Scratch:
             self._in(f"pk/{PKG}/templates/{n}")
         for n in ("a.liquid", "b.liquid", "b.txt", "sub/onlyb.liquid"):
             self._in(f"pk/{PKG}/more/{n}")
+        # cwd-rooted tree
+        for n in ("c", "c.liquid", "c.txt"):
+            self._canary("cwd-parent", f"w/{n}")
+        for d in ("sib", "sitex"):
+            for n in ("c.liquid", "a.liquid"):
+                self._canary("cwd-sibling", f"w/{d}/{n}")
+        for n in ("a", "a.liquid", "a.txt", "index.liquid", "sub/a.liquid", "sub/b.liquid",
+                  "ü/ü.liquid", "~", "~.liquid", "$HOME/a.liquid", "[a].liquid", "*.liquid",
+                  "?.liquid", "~+", "%HOME%.liquid"):
+            self._in(f"w/site/{n}")
+        for n in ("a.liquid", "a.txt", "b.liquid", "sub/a.liquid", "~", "~.liquid"):
+            self._in(f"w/site/templates/{n}")
+        for n in ("~", "~.liquid"):
+            self._in(f"p/A/{n}")
+            self._in(f"pk/{PKG}/templates/{n}")
+        self._in(f"pk/{PKG}/more/~.txt")
+        # the home directory '~' would expand to
+        for n in ("c", "c.liquid", "c.txt", "a", "a.liquid", "sub/a.liquid", "secret",
+                  "secret.html", "secret.liquid"):
+            self._canary("home", f"home/{n}")
+        self.W = os.path.join(self.S, "w", "site")
+        self.WT = os.path.join(self.W, "templates")
+        self.HOME = os.path.join(self.S, "home")
         self.A = os.path.join(self.S, "p", "A")
         self.B = os.path.join(self.S, "p", "B")
         self.PT = os.path.join(self.S, "pk", PKG, "templates")
@@ -202,6 +272,15 @@ class Scratch:
 
     def cleanup(self) -> None:
         try:
+            try:
+                os.chdir(self._old_cwd)
+            except OSError:
+                os.chdir("/")
+            for k, v in self._old_env.items():
+                if v is None:
+                    os.environ.pop(k, None)
+                else:
+                    os.environ[k] = v
             pk = os.path.join(self.S, "pk")
             while pk in sys.path:
                 sys.path.remove(pk)
@@ -244,9 +323,9 @@ class Cfg:
         self.subst = {
             "<ABSC>": os.path.join(sc.S, "c.liquid"),
             "<ABSS>": sc.S,
-            "<ABSIN>": os.path.join(roots[0], "a.liquid"),
-            "<ABSROOT>": roots[0],
-            "<ROOTNAME>": os.path.basename(roots[0]),
+            "<ABSIN>": os.path.join(self.roots[0], "a.liquid"),
+            "<ABSROOT>": self.roots[0],
+            "<ROOTNAME>": os.path.basename(self.roots[0]),
         }
         self.t_include_var = env.from_string("[{% include n %}]")
 
@@ -254,7 +333,7 @@ class Cfg:
         return "".join(self.subst.get(t, t) for t in toks)
 
 
-N_CONFIGS = 10
+N_CONFIGS = 22
 
 
 def build_configs(sc: Scratch, only: int | None = None) -> list[Cfg]:
@@ -275,6 +354,8 @@ def build_configs(sc: Scratch, only: int | None = None) -> list[Cfg]:
             return super().from_string(source, *a, **kw)
 
     A, B, PT, PM = sc.A, sc.B, sc.PT, sc.PM
+    W, WT = sc.W, sc.WT
+    assert os.path.realpath(os.getcwd()) == W, "shard cwd must be the sandbox site dir"
     table = [
         ("FileSystemLoader(A)",
          lambda: FileSystemLoader(A), [A], [None]),
@@ -299,6 +380,34 @@ def build_configs(sc: Scratch, only: int | None = None) -> list[Cfg]:
         ("CachingChoiceLoader([FileSystemLoader(B, ext='.liquid'), FileSystemLoader(A)])",
          lambda: CachingChoiceLoader([FileSystemLoader(B, ext=".liquid"), FileSystemLoader(A)]),
          [B, A], [".liquid", None]),
+        # search paths relative to the process cwd (= S/w/site)
+        ("FileSystemLoader('.')",
+         lambda: FileSystemLoader("."), [W], [None]),
+        ("FileSystemLoader('', ext='.liquid')",
+         lambda: FileSystemLoader("", ext=".liquid"), [W], [".liquid"]),
+        ("FileSystemLoader(Path())",
+         lambda: FileSystemLoader(Path()), [W], [None]),
+        ("FileSystemLoader('./', ext='.liquid')",
+         lambda: FileSystemLoader("./", ext=".liquid"), [W], [".liquid"]),
+        ("FileSystemLoader('templates')",
+         lambda: FileSystemLoader("templates"), [WT], [None]),
+        ("FileSystemLoader(['./templates', '.'], ext='.liquid')",
+         lambda: FileSystemLoader(["./templates", "."], ext=".liquid"), [WT, W], [".liquid"]),
+        ("FileSystemLoader('templates/../templates', ext='.liquid')",
+         lambda: FileSystemLoader("templates/../templates", ext=".liquid"), [WT], [".liquid"]),
+        ("FileSystemLoader([A, '.'])",
+         lambda: FileSystemLoader([A, "."]), [A, W], [None]),
+        ("CachingFileSystemLoader('.', ext='.liquid')",
+         lambda: CachingFileSystemLoader(".", ext=".liquid"), [W], [".liquid"]),
+        ("CachingFileSystemLoader(['templates', ''])",
+         lambda: CachingFileSystemLoader(["templates", ""]), [WT, W], [None]),
+        ("ChoiceLoader([FileSystemLoader('templates', ext='.liquid'), FileSystemLoader('.')])",
+         lambda: ChoiceLoader([FileSystemLoader("templates", ext=".liquid"),
+                               FileSystemLoader(".")]),
+         [WT, W], [".liquid", None]),
+        ("CachingChoiceLoader([FileSystemLoader(''), PackageLoader(pkg)])",
+         lambda: CachingChoiceLoader([FileSystemLoader(""), PackageLoader(PKG)]),
+         [W, PT], [None, ".liquid"]),
     ]
     assert len(table) == N_CONFIGS
     out = []
@@ -314,10 +423,17 @@ def build_configs(sc: Scratch, only: int | None = None) -> list[Cfg]:
 # name grammar
 # ---------------------------------------------------------------------------------------
 
-CORE = ["/", ".", "..", "a", "sub", "c", ".liquid", ".txt", "ü", "\\",
+CORE = ["/", ".", "..", "a", "sub", "c", ".liquid", ".txt", "ü", "\\", "~",
         "<ABSC>", "<ABSS>", "<ABSIN>", "<ABSROOT>"]
+# second exhaustive family: home-directory / environment-variable / glob spellings as
+# segments at every position ("~root" is an existing account, NOUSER is not)
+NOUSER = "~c13-no-such-user"
+HOMEFAM = ["/", ".", "..", "a", "c", ".liquid", "~", "~root", NOUSER, "$HOME", "${HOME}",
+           "%HOME%", "~+", "~-", "*", "?", "[a]"]
 EXTRA = ["sib", "<ROOTNAME>", "Ax", "deep", "b", "index", "d.d", ".html", "//", "...",
-         "%2e%2e", "%2f", "%5c", "．．", "‥", "／", "\x00", " ", "~", "*", "'", '"', "$",
+         "%2e%2e", "%2f", "%5c", "．．", "‥", "／", "\x00", " ", "*", "'", '"', "$",
+         "~root", NOUSER, "$HOME", "${HOME}", "%HOME%", "~+", "~-", "?", "[a]", "secret",
+         "$", "templates",
          "\ud800", "file://", "\n", "other", "__init__.py", "c.liquid", "a.liquid"]
 FULL = CORE + EXTRA
 THOROUGH_CORE = CORE + ["sib", "<ROOTNAME>", "//"]
@@ -363,6 +479,28 @@ def model_outside(name: str, cfg: Cfg) -> bool:
     return False
 
 
+_HOMEISH = re.compile(r"~|\$|%HOME%|\*|\?|\[a")
+
+
+def model_designates_something(name: str, cfg: Cfg) -> bool:
+    """Does anything (file or directory) exist at <root>/<name>, optionally with a default
+    extension, for some root — by plain joining, no expansion of any kind?  Deliberately
+    generous (several spellings of "with the default extension")."""
+    cands = {name}
+    for e in cfg.exts:
+        if e:
+            cands.add(name.rstrip("/") + e)
+            cands.add(os.path.normpath(name) + e if name else e)
+    for r in cfg.roots:
+        for c in cands:
+            try:
+                if os.path.lexists(os.path.join(r, c)):
+                    return True
+            except (ValueError, OSError):
+                pass
+    return False
+
+
 def exhaustive_names(alphabet: list[str], maxlen: int):
     """Yield (index, token tuple) for every distinct token string of <= maxlen tokens."""
     seen: set[str] = set()
@@ -382,10 +520,12 @@ def count_exhaustive(alphabet: list[str], maxlen: int) -> int:
 
 
 LEADS = ["", "", "/", "//", "///", "./", "../", "../../", "<ABSS>/", "<ABSROOT>/",
-         "<ABSROOT>/../", "<ABSS>/p/", "/../", "\\", "..\\", "~/", " /", "file://"]
+         "<ABSROOT>/../", "<ABSS>/p/", "/../", "\\", "..\\", "~/", " /", "file://",
+         "~//", "~root/", NOUSER + "/", "$HOME/", "${HOME}/", "%HOME%/", "~+/", "~-/", "./~/"]
 SEGS = ["a", "sub", "c", "ü", "sib", "<ROOTNAME>", "..", ".", "deep", "a.liquid", "Ax", "b",
         "index", "d.d", "p", "other", "c.liquid", "c.txt", "...", "％2e％2e", "%2e%2e", "‥",
-        "．．", ".. ", " ..", "..\x00", ""]
+        "．．", ".. ", " ..", "..\x00", "", "~", "~root", NOUSER, "$HOME", "${HOME}", "%HOME%",
+        "~+", "~-", "*", "?", "[a]", "secret", "secret.html", "templates", "*.liquid"]
 SEPS = ["/", "/", "/", "//", "/./", "\\", "/../", "%2f", "／"]
 EXTS = ["", "", ".liquid", ".txt", ".", ".html", ".liquid/", ".liquid/."]
 TRAILS = ["", "", "", "/", "//", "/.", "\x00", " ", "/.."]
@@ -456,6 +596,31 @@ def directed_names(sc: Scratch, cfg: Cfg) -> list[str]:
                       target + "\x00", os.path.dirname(target) + "/./" + os.path.basename(target),
                       os.path.dirname(target) + "/x/../" + os.path.basename(target)):
                 add(v)
+    # every spelling of "the home directory" for the canaries planted below $HOME
+    for _label, cpath in sc.canaries:
+        if not cpath.startswith(sc.HOME + "/"):
+            continue
+        rel = cpath[len(sc.HOME) + 1:]
+        stem = os.path.splitext(rel)[0]
+        for t in {rel, stem}:
+            for h in ("~", "~root", NOUSER, "$HOME", "${HOME}", "%HOME%", "~+", "~-", "~~",
+                      "~" + os.path.basename(sc.HOME), "$USERPROFILE", "%USERPROFILE%"):
+                for sep in ("/", "//", "/./", "\\"):
+                    add(h + sep + t)
+                add("./" + h + "/" + t)
+                add("sub/" + h + "/" + t)
+                add(h + "/sub/../" + t)
+                add(h + t)
+            add("~/" + t + "/")
+            add("~/" + t + "\x00")
+            add(" ~/" + t)
+            add("~ /" + t)
+    for n in ("~", "~/", "~/.", "~//", "~root", "~root/", NOUSER, NOUSER + "/", NOUSER + "/a",
+              NOUSER + "/a.liquid", "$HOME", "${HOME}", "%HOME%", "~+", "~-", "~.liquid",
+              "templates/~", "./~", "sub/~", "~/..", "~/../home/c.liquid", "*", "?", "[a]",
+              "*.liquid", "?.liquid", "[a].liquid", "a*", "a?", "[a-z].liquid", "$HOME/a",
+              "$HOME/a.liquid", "${HOME}/a.liquid", "%HOME%.liquid", "{a,b}.liquid"):
+        add(n)
     # absolute / dotdot names that resolve INSIDE a root (must still be refused)
     for r in cfg.roots:
         for n in ("a.liquid", "a", "sub/a.liquid", "index.liquid", "", "sub", "b.txt", "b"):
@@ -590,6 +755,9 @@ class Runner:
             self._rp[p] = r
         return r
 
+    def _syspath(self) -> set[str]:
+        return {os.path.realpath(p or ".") for p in sys.path}
+
     def inside(self, rp: str, cfg: Cfg) -> bool:
         return any(rp == r or rp.startswith(r + "/") for r in cfg.roots)
 
@@ -613,7 +781,10 @@ class Runner:
                 p = os.fsdecode(p)
             p = str(p)
             rp = self.realpath(p)
-            if any((rp + "/").startswith(pre) for pre in self.ignore):
+            if any((rp + "/").startswith(pre) for pre in self.ignore) or (
+                    kind == "os.listdir" and rp in self._syspath()):
+                # lazy import: file reads below the Python installation, and the path
+                # finder listing a sys.path entry
                 ctx.count("audit_python_import_reads_ignored")
                 continue
             ctx.count("audit_open_events")
@@ -651,9 +822,19 @@ class Runner:
                 ctx.count("served_inside")
             elif ob.exc == "TemplateNotFoundError":
                 ctx.count("not_found_inside")
+            elif not model_designates_something(name, cfg):
+                # nothing exists at <root>/<name>[<ext>] for any root: whatever else the
+                # loader made of the name ('~user', '$HOME', globs, ...) it did not resolve
+                # inside a root, so the only admissible failure is TemplateNotFoundError
+                ctx.count("nothing_inside_wrong_error")
+                fails[f"wrong-error-type:{ob.exc}"] = [{"message": sc.sym(ob.excmsg[:160])}]
             else:
                 ctx.count(f"diag:{ob.exc}")  # e.g. IsADirectoryError for '', '.', 'sub/'
                 ctx.seen("diag_non_escaping_errors", f"{ob.exc}@{cfg.kind}")
+            if _HOMEISH.search(name):
+                ctx.count("homeish_names_checked")
+                if ob.ok:
+                    ctx.count("homeish_names_served_inside")
         ctx.count("outcome:" + ("ok" if ob.ok else str(ob.exc)))
         ctx.seen("loader_kinds", cfg.kind)
         ctx.seen("access_paths", f"{access}/{mode}")
@@ -670,8 +851,8 @@ class Runner:
                 "canary-returned": "content of a canary file planted outside the roots was returned as template source",
                 "foreign-content-returned": "returned source is not the content of any file inside the roots",
                 "served": "a name that is absolute / has a '..' segment / resolves outside was served instead of TemplateNotFoundError",
-            }.get(clause, "escaping name failed with " + clause.split(":", 1)[-1]
-                  + " instead of TemplateNotFoundError")
+            }.get(clause, ("escaping name" if must_fail else "name that designates nothing inside any root")
+                  + " failed with " + clause.split(":", 1)[-1] + " instead of TemplateNotFoundError")
             ctx.violation(key, f"{cfg.kind}: {what} ({shape} name)", {
                 "cfg": cfg.id, "cfg_desc": cfg.desc, "access": access, "mode": mode,
                 "name": sc.sym(name), "shape": shape, "model_resolves_outside": outside,
@@ -755,34 +936,33 @@ def _safe_str(e: BaseException) -> str:
 
 def shards(tier: str, seed: int) -> list[dict[str, Any]]:
     specs: list[dict[str, Any]] = []
-    ne = 10 if tier == "quick" else 20
+    ne, nr, nd = (9, 3, 4) if tier == "quick" else (20, 8, 4)
     for i in range(ne):
         specs.append({"kind": "exh", "i": i, "n": ne})
-    nr = 4 if tier == "quick" else 10
     for i in range(nr):
         specs.append({"kind": "rand", "i": i, "n": nr})
-    nd = 2 if tier == "quick" else 2
     for i in range(nd):
         specs.append({"kind": "directed", "i": i, "n": nd})
     return specs
 
 
 def floors(tier: str) -> dict[str, int]:
-    k = 1 if tier == "quick" else 10
+    q = tier == "quick"
     return {
-        # calibrated at ~40-50 % of what the unchanged tree yields (quick: 977 k calls,
-        # 438 k cases; thorough: 12.2 M calls, 1.36 M cases); the audit / content floors
-        # are below what remains once absolute names are refused (6.4 k / 73 k opens)
-        "evaluations": 400_000 * k,
-        "distinct_nontrivial": 200_000 if tier == "quick" else 700_000,
-        "loader_calls": 400_000 * k,
-        "audit_open_events": 2_000 * k,
-        "audit_open_inside_root": 2_000 * k,
-        "content_checks_inside": 2_000 * k,
-        "must_fail_checked": 200_000 * k,
-        "must_fail_shape:dotdot": 50_000 * k,
-        "must_fail_shape:absolute": 150_000 * k,
-        "served_inside": 1_000 * k,
+        # calibrated at ~40-50 % of what the unchanged tree yields (see evidence counters)
+        # (quick: 2.2 M calls / 1.4 M cases / 8.8 k opens; thorough: 14.9 M / 4.9 M / 47 k)
+        "evaluations": 900_000 if q else 7_000_000,
+        "distinct_nontrivial": 600_000 if q else 2_400_000,
+        "loader_calls": 900_000 if q else 7_000_000,
+        "audit_open_events": 4_000 if q else 20_000,
+        "audit_open_inside_root": 4_000 if q else 20_000,
+        "content_checks_inside": 6_000 if q else 35_000,
+        "must_fail_checked": 350_000 if q else 2_000_000,
+        "must_fail_shape:dotdot": 70_000 if q else 450_000,
+        "must_fail_shape:absolute": 280_000 if q else 1_600_000,
+        "served_inside": 3_500 if q else 20_000,
+        "homeish_names_checked": 280_000 if q else 3_000_000,
+        "homeish_names_served_inside": 2_000 if q else 10_000,
         "max:canaries_planted": 4,
         "selfcheck_ok": 2,
         "set:loader_kinds": 5,
@@ -791,18 +971,22 @@ def floors(tier: str) -> dict[str, int]:
     }
 
 
-def _exh_params(tier: str) -> tuple[list[str], int, int]:
-    """alphabet, max tokens, max tokens for which every access path is exercised."""
+def _families(tier: str) -> list[tuple[str, list[str], int, list[str]]]:
+    """(label, alphabet, max tokens, fan-out scheme per token count — see _expand).  Every
+    enumerated name meets every configuration at least from Python (sync)."""
     if tier == "quick":
-        return CORE, 4, 3
-    return THOROUGH_CORE, 4, 4
+        return [("core", CORE, 4, ["full", "full", "full", "rot", "py1"]),
+                ("home", HOMEFAM, 3, ["full", "full", "full", "py2"])]
+    return [("core", THOROUGH_CORE, 4, ["full", "full", "full", "full", "py3"]),
+            ("home", HOMEFAM, 4, ["full", "full", "full", "full", "py2"])]
 
 
 def exhaustive(tier: str, merged: dict[str, Any]) -> bool:
-    alphabet, maxlen, _ = _exh_params(tier)
-    want = count_exhaustive(alphabet, maxlen)
-    return (merged["counters"].get("exh_names_done", 0) == want
-            and not merged.get("truncated") and not merged.get("failed"))
+    ok = not merged.get("truncated") and not merged.get("failed")
+    for label, alphabet, maxlen, _ in _families(tier):
+        want = count_exhaustive(alphabet, maxlen)
+        ok = ok and merged["counters"].get(f"exh_names_done:{label}", 0) == want
+    return bool(ok)
 
 
 def run_shard(spec: dict[str, Any], ctx: Ctx) -> None:
@@ -825,47 +1009,71 @@ def run_shard(spec: dict[str, Any], ctx: Ctx) -> None:
 
 
 CHUNK = 40
+TAG_AM = ALL_AM[2:]  # the eight tag-driven (access, mode) pairs
+
+
+def _expand(r: Runner, jobs: list[Any], k: int, scheme: str, ntoks: int, symb: str | None,
+            toks: tuple[str, ...] | None = None, name: str | None = None,
+            cfgs: list[Cfg] | None = None) -> None:
+    """Append the calls for one name.  scheme:
+    full  every configuration x all 10 (access, mode) pairs;
+    rot   every configuration: py/sync, py/async and 3 of the 8 tag paths, rotating with the
+          name index and the configuration so that each name meets all 10 paths;
+    py3 / py2  every configuration: py/sync and 2 / 1 of the other 9 paths, rotating;
+    py1   every configuration from Python (sync); one configuration (rotating) also
+          through one further rotating path."""
+    use = cfgs if cfgs is not None else r.cfgs
+    for ci, cfg in enumerate(use):
+        nm = cfg.concrete(toks) if toks is not None else name
+        if scheme == "full":
+            ams = ALL_AM
+        elif scheme == "rot":
+            o = 3 * (k + ci)
+            ams = [ALL_AM[0], ALL_AM[1]] + [TAG_AM[(o + j) % 8] for j in range(3)]
+        elif scheme == "py3":
+            o = 2 * (k + ci)
+            ams = [ALL_AM[0], ALL_AM[1 + o % 9], ALL_AM[1 + (o + 1) % 9]]
+        elif scheme == "py2":
+            ams = [ALL_AM[0], ALL_AM[1 + (k + ci) % 9]]
+        else:
+            ams = [ALL_AM[0]]
+            if ci == k % len(use):
+                ams = [ALL_AM[0], ALL_AM[1 + (k // len(use)) % 9]]
+        for a, m in ams:
+            jobs.append((cfg, a, m, nm, ntoks, symb))
 
 
 def _exh(r: Runner, spec: dict[str, Any], ctx: Ctx) -> None:
-    alphabet, maxlen, full_upto = _exh_params(spec["tier"])
-    jobs: list[Any] = []
-    nchunk = 0
-    last = None
-    for idx, toks in exhaustive_names(alphabet, maxlen):
-        if idx % spec["n"] != spec["i"]:
-            continue
-        symb = "".join(toks)
-        nt = len(toks)
-        for cfg in r.cfgs:
-            name = cfg.concrete(toks)
-            if nt <= full_upto:
-                for a, m in ALL_AM:
-                    jobs.append((cfg, a, m, name, nt, symb))
-            else:
-                jobs.append((cfg, "py", "sync", name, nt, symb))
-        if nt > full_upto:
-            # one further (configuration, access path) per name, rotating
+    for label, alphabet, maxlen, schemes in _families(spec["tier"]):
+        jobs: list[Any] = []
+        nchunk = 0
+        last = None
+        for idx, toks in exhaustive_names(alphabet, maxlen):
+            if idx % spec["n"] != spec["i"]:
+                continue
+            symb = "".join(toks)
+            nt = len(toks)
             k = idx // spec["n"]
-            cfg = r.cfgs[k % len(r.cfgs)]
-            a, m = ALL_AM[1 + (k // len(r.cfgs)) % (len(ALL_AM) - 1)]
-            jobs.append((cfg, a, m, cfg.concrete(toks), nt, symb))
-        ctx.count("exh_names_done")
-        ctx.mx("max:exh_tokens", nt)
-        last = symb
-        nchunk += 1
-        if nchunk >= CHUNK:
-            r.run_batch(jobs)
-            jobs = []
-            nchunk = 0
-            ctx.check_deadline()
-    r.run_batch(jobs)
-    ctx.sample({"kind": "exhaustive", "name": last, "alphabet": alphabet, "max_tokens": maxlen})
+            scheme = schemes[nt]
+            _expand(r, jobs, k, scheme, nt, symb, toks=toks)
+            ctx.count(f"exh_names_done:{label}")
+            ctx.count(f"exh_scheme:{label}:{nt}tok:{scheme}")
+            ctx.mx(f"max:exh_tokens:{label}", nt)
+            last = symb
+            nchunk += 1
+            if nchunk >= CHUNK:
+                r.run_batch(jobs)
+                jobs = []
+                nchunk = 0
+                ctx.check_deadline()
+        r.run_batch(jobs)
+        ctx.sample({"kind": "exhaustive:" + label, "name": last, "alphabet": alphabet,
+                    "max_tokens": maxlen})
 
 
 def _rand(r: Runner, spec: dict[str, Any], ctx: Ctx) -> None:
     rng = random.Random(f"{spec['seed']}:rand:{spec['i']}")
-    total = 2400 if spec["tier"] == "quick" else 60_000
+    total = 2400 if spec["tier"] == "quick" else 32_000
     n = total // spec["n"]
     jobs: list[Any] = []
     last = None
@@ -873,10 +1081,7 @@ def _rand(r: Runner, spec: dict[str, Any], ctx: Ctx) -> None:
         toks = random_name(rng)
         symb = "".join(toks)
         ctx.mx("max:rand_tokens", len(toks))
-        for cfg in r.cfgs:
-            name = cfg.concrete(toks)
-            for a, m in ALL_AM:
-                jobs.append((cfg, a, m, name, len(toks), symb))
+        _expand(r, jobs, j, "rot", len(toks), symb, toks=toks)
         ctx.count("rand_names_done")
         last = symb
         if (j + 1) % CHUNK == 0:
@@ -889,13 +1094,13 @@ def _rand(r: Runner, spec: dict[str, Any], ctx: Ctx) -> None:
 
 def _directed(r: Runner, spec: dict[str, Any], ctx: Ctx) -> None:
     last = None
+    scheme = "py3" if spec["tier"] == "quick" else "full"
     for cfg in r.cfgs:
         if cfg.id % spec["n"] != spec["i"]:
             continue
         jobs: list[Any] = []
         for j, name in enumerate(directed_names(r.sc, cfg)):
-            for a, m in ALL_AM:
-                jobs.append((cfg, a, m, name, 2, None))
+            _expand(r, jobs, j, scheme, 2, None, name=name, cfgs=[cfg])
             ctx.count("directed_names_done")
             last = name
             if (j + 1) % CHUNK == 0:
@@ -917,6 +1122,7 @@ def replay(wit: dict[str, Any], ctx: Ctx) -> None:
     try:
         cfg = build_configs(sc, only=int(wit["cfg"]))[0]
         r = Runner(ctx, sc, [cfg])
+        r.selfcheck()  # also warms up the lazy imports of the executor machinery
         r.verbose = True
         name = sc.unsym(wit["name"])
         access, mode = wit["access"], wit["mode"]
